@@ -599,7 +599,7 @@ func r6ToWriter(c *RuleCtx) {
 				}
 			}
 		}
-		if callee != nil && callee.Name() == "persistFooter" && c.p.InZap(callee) {
+		if callee != nil && namedFn(callee, "persistFooter") {
 			if len(args) > 0 && wraps(args[len(args)-1], wparam, 0) {
 				footerSites = append(footerSites, cs)
 			}
